@@ -32,9 +32,9 @@ CHECK_DEADLOCK FALSE
 
 def generate(tier: str) -> fx.TlcResult:
     if tier == 'quick':
-        cfg = CFG.format(layouts='1,2,3,4,5,6', pointings='1,2,3,4,5,6,7,8,9,10,11,12', maxsamp=2)
+        cfg = CFG.format(layouts='1,2,3,4,5,6', pointings='1,2,3,4,5,6,7,8,9,10,11,12,13,14,15,16,17', maxsamp=2)
     else:
-        cfg = CFG.format(layouts='1,2,3,4,5,6', pointings='1,2,3,4,5,6,7,8,9,10,11,12', maxsamp=3)
+        cfg = CFG.format(layouts='1,2,3,4,5,6', pointings='1,2,3,4,5,6,7,8,9,10,11,12,13,14,15,16,17', maxsamp=3)
     res = fx.run_tlc('MC_Pointing', cfg, workers=6)
     if res.violated:
         raise fx.MachineryError(f'MC_Pointing violates {res.violated}:\n' + res.stdout[-3000:])
